@@ -58,34 +58,40 @@ def tricky_prefix(r):
 
 
 def declared_symbols(nested):
+    """Symbols declared by the commands of a (possibly ill-formed) script."""
     out = set()
+
+    def add(x):
+        if isinstance(x, str):
+            out.add(x)
+
     for c in nested:
         if not isinstance(c, list) or len(c) < 2:
             continue
         h = c[0]
         if h in ('declare-const', 'declare-fun', 'define-fun', 'declare-sort',
-                 'define-sort', 'define-fun-rec') and isinstance(c[1], str):
-            out.add(c[1])
+                 'define-sort', 'define-fun-rec'):
+            add(c[1])
         elif h == 'declare-datatype' and len(c) == 3:
-            out.add(c[1]) if isinstance(c[1], str) else None
+            add(c[1])
             for cd in c[2] if isinstance(c[2], list) else []:
                 if isinstance(cd, list) and cd:
-                    out.add(cd[0])
+                    add(cd[0])
                     for s in cd[1:]:
                         if isinstance(s, list) and s:
-                            out.add(s[0])
+                            add(s[0])
         elif h == 'declare-datatypes' and len(c) == 3:
-            try:
-                for sd in c[1]:
-                    out.add(sd[0])
-                for body in c[2]:
-                    for cd in body:
-                        out.add(cd[0])
+            for sd in c[1] if isinstance(c[1], list) else []:
+                if isinstance(sd, list) and sd:
+                    add(sd[0])
+            for body in c[2] if isinstance(c[2], list) else []:
+                for cd in body if isinstance(body, list) else []:
+                    if isinstance(cd, list) and cd:
+                        add(cd[0])
                         for s in cd[1:]:
-                            out.add(s[0])
-            except (TypeError, IndexError):
-                pass
-    return {x for x in out if isinstance(x, str)}
+                            if isinstance(s, list) and s:
+                                add(s[0])
+    return out
 
 
 def all_ids(exprs):
